@@ -82,6 +82,16 @@ def gen(tier, rng):
         for i in range(1, len(w)):
             for j, d2 in enumerate(D2S):
                 yield {"d1": D1S[(i + j) % len(D1S)], "x": w[:i], "d2": d2}
+    # what parse_string returns (Library, default stack): keys of failed / duplicate-field blocks of the malformed part that
+    # reappear in D2; @string names after D1 that differ only in case from names D1 uses
+    eps = []
+    for d1 in ("@string{s9 = {x}}\n@a{k1, f = s9, g = S9}", "@string{acm = \"A\"}\n@a{k1, f = acm, h = {acm}}", "@a{k1, f = 1}"):
+        for x in ("@c{k3, g = 1, g = 2}", "@c{k3, g = {w", "@d{k4, a = 1, A = 2, a = 3}\n}}", "@string{s2 = 1 = 2}", "@e{k5 h = 1}", "}",
+                  "@string{Acm = 3", "@string{ACM = {u}, }", ""):
+            for d2 in D2S + ["@string{ACM = {other}}\n@c{k3, g = ACM}", "@string{S9 = 1}\n@c{k3, g = S9, h = s9}"]:
+                eps.append({"d1": d1, "x": x, "d2": d2, "ep": 1})
+    for c in eps:
+        yield c
     # malformed middles of a SIZE that matters: very deep unclosed / closed nesting, very long truncated values,
     # thousands of stray delimiters (recursion limits, quadratic scans)
     for depth in ((1500, 6000) if tier == "quick" else (1500, 6000, 30000)):
@@ -121,7 +131,10 @@ def request(case):
 
 
 def impl(case):
-    return C.ok(B.enc_blocks(C.raw_split(_text(case))))
+    res = C.ok(B.enc_blocks(C.raw_split(_text(case))))
+    if case.get("ep") and _entry_point_level(case) is not None:
+        return res + " (entry-point-level-differs)"
+    return res
 
 
 def _sig(blocks, shift=0):
@@ -165,6 +178,51 @@ def oracle(case):
     s2 = _sig(b2, shift)
     if len(s2) and s_all[-len(s2):] != s2:
         return "blocks of the well-formed suffix differ from parsing it alone: %r vs %r" % (s_all[-len(s2):][:2], s2[:2])
+    return _entry_point_level(case)
+
+
+def _entry_point_level(case):
+    """The same two clauses for what parse_string returns (the Library, and the default stack), as far as they hold there:
+    (1) parse_string(D1+X+D2, parse_stack=[]): when no live entry / @string of D1+X has a key that D2 uses, the blocks of D2
+        come out exactly as from parse_string(D2, parse_stack=[]) (keys of failed and duplicate-field blocks in X do not count:
+        they are not registered);
+    (2) parse_string(D1+X+D2) with the default stack: when no unenclosed field value of D1 names an @string defined after
+        D1, the blocks of D1 come out exactly as from parse_string(D1)."""
+    import bibtexparser
+    from bibtexparser import model as M
+    d1, x, d2 = case["d1"], case["x"], case["d2"]
+    whole = _text(case)
+    allb, b1, b2 = C.raw_split(whole), C.raw_split(d1), C.raw_split(d2)
+    if len(allb) < len(b1) + len(b2):
+        return None                                  # splitter level already differs: reported by the caller
+
+    def lsig(blocks, shift):
+        out = []
+        for b in blocks:
+            i = b.ignore_error_block if isinstance(b, M.ParsingFailedBlock) else None
+            out.append((type(b).__name__, b.raw, b.start_line - shift, type(i).__name__))
+        return out
+
+    if b2:
+        head = allb[:len(allb) - len(b2)]
+        taken = {(type(b).__name__, b.key) for b in head if isinstance(b, (M.Entry, M.String))}
+        used = {(type(b).__name__, b.key) for b in b2 if isinstance(b, (M.Entry, M.String))}
+        if not (taken & used):
+            shift = whole[:len(whole) - len(d2)].count("\n")
+            got = lsig(bibtexparser.parse_string(whole, parse_stack=[]).blocks[-len(b2):], shift)
+            want = lsig(bibtexparser.parse_string(d2, parse_stack=[]).blocks, 0)
+            if got != want:
+                return ("parse_string(text, parse_stack=[]): the blocks of the well-formed suffix are %r, on their own %r"
+                        % ([g for g, w in zip(got, want) if g != w][:2], [w for g, w in zip(got, want) if g != w][:2]))
+    if b1:
+        later = {b.key for b in allb[len(b1):] if isinstance(b, M.String)}
+        bare = {f.value for b in b1 if isinstance(b, M.Entry) for f in b.fields if isinstance(f.value, str)}
+        if not (later & bare):
+            got = [repr(B.enc_block(b)) for b in bibtexparser.parse_string(whole).blocks[:len(b1)]]
+            want = [repr(B.enc_block(b)) for b in bibtexparser.parse_string(d1).blocks]
+            if got != want:
+                return ("parse_string(text) with the default stack: the blocks of the well-formed prefix are %r, without the "
+                        "text after them %r" % ([g for g, w in zip(got, want) if g != w][:1], [w for g, w in zip(got, want) if g != w][:1]))
     return None
 
 
